@@ -206,6 +206,145 @@ def make_two_leaf_run(task):
     return run
 
 
+# ------------------------------------------------------------------------------------------------ cell bounding
+CELL_BOX, CELL_N = 3.0, 6
+
+
+def make_cell_two_leaf_run(task):
+    """TwoLeafUnitCellBoundingPotentialEventHandler on two atoms in a real periodic cell system (1-D, 6 cells, one
+    layer of nearby cells): the candidate time and the bounding rate come from the cell bounding potential at the
+    relative cell of the target, the true rate from the real separation; confirmation as in the two-leaf handler; the
+    documented ``None`` out-state exactly when the time-sliced active unit has left its cell."""
+    active_index, = task
+    import jellyfysh.event_handler.two_leaf_unit_cell_bounding_potential_event_handler as tlc_mod
+    from jellyfysh.potential.cell_bounding_potential import CellBoundingPotential
+    from jellyfysh.activator.internal_state.cell_occupancy.cells.cuboid_periodic_cells import CuboidPeriodicCells
+
+    class LogCellBoundingPotential(CellBoundingPotential):
+        def __init__(self, ex, name, log):
+            self._prefactor = 1.0
+            self._number_separation_arguments = 1
+            self._number_charge_arguments = 2
+            self._potential_change_required = True
+            self.ex, self.name, self.log = ex, name, log
+
+        def initialize(self, cells, calculate_lower_bound):
+            self.log.append((self.name, "initialize", cells, calculate_lower_bound))
+
+        def derivative(self, velocity, cell_separation, charge_one, charge_two):
+            b = self.ex.fresh_real(self.name)
+            self.log.append((self.name, "derivative", list(velocity), cell_separation, L(charge_one), L(charge_two), b))
+            return b
+
+        def displacement(self, velocity, cell_separation, charge_one, charge_two, potential_change):
+            d = self.ex.fresh_real(self.name + "_disp")
+            self.ex.axiom(d.t >= 0)
+            self.log.append((self.name, "displacement", list(velocity), cell_separation, L(charge_one), L(charge_two), d))
+            return d
+
+    def run(ex):
+        jf.init_hypercuboid([CELL_BOX], roots=2, per_root=1)
+        rnd = stubs.SymRandom(ex)
+        undos = [symx.patch_module(ehb_mod, random=rnd, bounding_potential_warning=lambda *a: None),
+                 symx.patch_module(tlc_mod, random=rnd, math=symx.MathShim()),
+                 symx.patch_module(time_mod, isinf=symx.MathShim.isinf)]
+        try:
+            cells = CuboidPeriodicCells(cells_per_side=[CELL_N], neighbor_layers=1)
+            log = []
+            speed = ex.real("speed")
+            ex.axiom(speed.t > 0)
+            units, Ls = [], symx.realval(CELL_BOX)
+            for i in range(2):
+                x = ex.real("u%d_x0" % i)
+                ex.axiom(z3.And(x.t >= 0, x.t < Ls))
+                if i == active_index:
+                    stamp, stamp_val = jf.sym_time(ex, "u%d_t" % i, hi=4)
+                    units.append(Unit(identifier=(i,), position=[x], charge={"e": ex.real("u%d_charge" % i)},
+                                      velocity=[speed], time_stamp=stamp))
+                else:
+                    units.append(Unit(identifier=(i,), position=[x], charge={"e": ex.real("u%d_charge" % i)}))
+            a, o = units[active_index], units[active_index ^ 1]
+            cell_a = cells.position_to_cell(a.position)
+            cell_o = cells.position_to_cell(o.position)
+            if cell_o in cells.nearby_cells(cell_a):
+                raise symx.PathAbort()          # the tagger never hands over nearby pairs (C10)
+            h = tlc_mod.TwoLeafUnitCellBoundingPotentialEventHandler(
+                potential=LogPotential(ex, "q", log), bounding_potential=LogCellBoundingPotential(ex, "b", log),
+                charge="e")
+            h.initialize(cells)
+            t_event = h.send_event_time([Node(u, weight=1) for u in units])
+            sliced = snapshot(units)
+            disp = [c for c in log if c[1] == "displacement"]
+            want_rel = cells.relative_cell(cell_o, cell_a)
+            ex.oblige("candidate-time-from-the-cell-bound-at-the-relative-cell-of-the-target",
+                      z3.And(z3.BoolVal(len(disp) == 1 and disp[0][3] is want_rel),
+                             jf.time_value(t_event) == stamp_val + (disp[0][6].t if disp else 0)))
+            n_draws = len(rnd.draws)
+            out = h.send_out_state()
+            left_cell = cells.position_to_cell(a.position) is not cell_a
+            ex.oblige("none-out-state-exactly-when-the-active-unit-left-its-cell", z3.BoolVal((out is None) == left_cell))
+            if out is None:
+                return "left-cell"
+            after = snapshot(all_units(out))
+            calls = [c for c in log if c[1] == "derivative"]
+            qcall = [c for c in calls if c[0] == "q"]
+            bcall = [c for c in calls if c[0] == "b"]
+            ex.oblige("one-true-rate-and-one-bound-evaluation", z3.BoolVal(len(qcall) == 1 and len(bcall) == 1))
+            q, b = qcall[0][6].t, bcall[0][6].t
+            ex.oblige("bound-evaluated-at-the-relative-cell-with-the-same-velocity-and-charges",
+                      z3.And(z3.BoolVal(bcall[0][3] is want_rel and qcall[0][2] == bcall[0][2]),
+                             qcall[0][4] == bcall[0][4], qcall[0][5] == bcall[0][5]))
+            ex.oblige("separation-is-target-minus-active-at-the-event-time",
+                      jf.zmod_eq(qcall[0][3][0], sliced[o.identifier][0][0] - sliced[a.identifier][0][0], Ls))
+            ex.oblige("true-rate-separation-is-the-minimum-image",
+                      z3.And(qcall[0][3][0] >= -Ls / 2, qcall[0][3][0] <= Ls / 2))
+            ex.oblige("charges-are-those-of-the-two-units",
+                      z3.And(qcall[0][4] == L(units[0].charge["e"]), qcall[0][5] == L(units[1].charge["e"])))
+            draws = [d for d in rnd.draws[n_draws:] if d[0] == "uniform"]
+            handed_over = after[o.identifier][1] is not None
+            if draws:
+                u = draws[0][3].t
+                ex.oblige("confirmation-draw-is-uniform-on-[0,bound]", z3.And(L(draws[0][1]) == 0, L(draws[0][2]) == b))
+                ex.oblige("accepted-iff-draw-below-max(0,true-rate)", z3.BoolVal(handed_over) == z3.And(q > 0, u < q))
+            else:
+                ex.oblige("no-draw-only-when-true-rate-not-positive", z3.And(q <= 0, z3.BoolVal(not handed_over)))
+            if handed_over:
+                ex.oblige("accepted:velocity-moves-to-the-target-at-the-event-time",
+                          z3.And(z3.BoolVal(after[a.identifier][1] is None),
+                                 *[x == y for x, y in zip(after[o.identifier][1], sliced[a.identifier][1])],
+                                 after[o.identifier][2] == jf.time_value(t_event),
+                                 *[x == y for x, y in zip(after[o.identifier][0], sliced[o.identifier][0])],
+                                 *[x == y for x, y in zip(after[a.identifier][0], sliced[a.identifier][0])]))
+            else:
+                ex.oblige("rejected:out-state-is-the-time-sliced-in-state", same_as(after, sliced))
+            return handed_over
+        finally:
+            for u_ in undos:
+                u_()
+            jf.reset_settings()
+
+    return run
+
+
+def explore_cell_two_leaf(task):
+    queries, npaths = [], 0
+    tag = "celltwoleaf/a%d" % task[0]
+    info = {"family": "cell_two_leaf", "task": list(task), "replay": "thin"}
+    ex = symx.Explorer(witness=True, max_paths=20000)
+    for path in ex.paths(make_cell_two_leaf_run(task)):
+        npaths += 1
+        if path.exception is not None:
+            queries.append(solve.Query("%s/p%d/no-exception(%s: %s)" % (tag, npaths, type(path.exception).__name__,
+                                                                        str(path.exception)[:60]),
+                                       solve.to_smt2(path.hyp()), expect="unsat",
+                                       info=dict(info, exception=repr(path.exception), choices=list(path.choices)),
+                                       group="thin/no-exception"))
+            continue
+        queries += harness.path_queries(path, prefix="%s/p%d/" % (tag, npaths), group_prefix="thin/cell_two_leaf/",
+                                        extra_info=info)
+    return {"paths": npaths, "queries": queries, "part": "cell_two_leaf"}
+
+
 def explore_summed(task):
     """TwoCompositeObjectSummedBoundingPotentialEventHandler on two composite objects of m leaves."""
     m, active_root, active_leaf, props = task
@@ -359,7 +498,9 @@ def make_summed_run(task):
 
 def replay_thin(model, q):
     task = q.info.get("task")
-    run = make_two_leaf_run(tuple(task)) if q.info.get("family") == "two_leaf" else make_summed_run(tuple(task))
+    fam = q.info.get("family")
+    run = (make_two_leaf_run(tuple(task)) if fam == "two_leaf" else make_cell_two_leaf_run(tuple(task))
+           if fam == "cell_two_leaf" else make_summed_run(tuple(task)))
     return harness.concrete_replay_result(run, model, q, "%s handler step %s" % (q.info.get("family"), task))
 
 
@@ -386,7 +527,8 @@ def main():
     chk.outside_claim("'1.5837/r dominates the merged-image derivative at every separation': the true rate is a "
                       "truncated Ewald sum of erfc/exp/sin/cos over a 3-D continuum, no solver here has a theory for "
                       "it; a change of that prefactor is NOT detected by this check",
-                      "the cell-bounding and cell-veto composite handlers (same confirmation pattern, not executed here)",
+                      "the composite-object cell-bounding and cell-veto handlers (same confirmation pattern, not "
+                      "executed here; the two-leaf cell-bounding handler is)",
                       "rounding")
     chk.stub("potential / bounding potential -> logging stubs returning fresh reals", "random.uniform -> symbol in "
              "the documented closed range")
@@ -394,6 +536,14 @@ def main():
                "max(0, q) (for q <= b), hence probability max(0, q)/b")
     chk.register_replay("thin", replay_thin)
     chk.explore_parallel([(0,), (1,)], explore_two_leaf)
+    import jellyfysh.event_handler.two_leaf_unit_cell_bounding_potential_event_handler as tlc_mod
+    chk.encoded(tlc_mod.TwoLeafUnitCellBoundingPotentialEventHandler.send_event_time,
+                tlc_mod.TwoLeafUnitCellBoundingPotentialEventHandler.send_out_state)
+    chk.bound(cell_two_leaf="TwoLeafUnitCellBoundingPotentialEventHandler on two atoms in a real 1-D periodic cell "
+                            "system (box %g, %d cells, 1 layer of nearby cells), every pair of non-nearby cells, "
+                            "symbolic positions / charges / speed / time stamp / bound / true rate / draw"
+                            % (CELL_BOX, CELL_N))
+    chk.explore_parallel([(0,), (1,)], explore_cell_two_leaf)
     ms = (2, 3) if chk.thorough else (2,)
     chk.explore_parallel([(m, r, k, None) for m in ms for r in range(2) for k in range(m)], explore_summed)
     chk.finish()
